@@ -75,6 +75,8 @@ def run(ctx):
         return bool(alts) and all(any(says(a) for a in alt) for alt in alts)
 
     def on_branch(test, truth, st):
+        if getattr(ea, "in_assert", False):
+            return []          # an `assert authenticated` is not the handshake: it is compiled out under -O and, when it does fire, the exchange dies
         t = tl(test)
         if t is not None and ((is_auth_test(t) and truth is False) or settles_auth(t, truth)):
             return ["auth_ok"]
